@@ -575,6 +575,7 @@ class BuiltinModelDumperGen(ModelDumperGen):
                     self._gen_dict_sieved_append(
                         state, crown.sieves[key], key,
                         element_expr=ElementExpr("value", can_inline=True),
+                        raw_expr=self._get_sieve_raw_expr(state, sub_crown, "value"),
                     )
                 else:
                     state.builder(f"{state.v_crown}[{key!r}] = value")
@@ -582,7 +583,18 @@ class BuiltinModelDumperGen(ModelDumperGen):
             element_expr = self._get_element_expr(state, key, sub_crown)
             self._gen_dict_sieved_append(
                 state, crown.sieves[key], key, element_expr,
+                raw_expr=self._get_sieve_raw_expr(state, sub_crown, element_expr.expr),
             )
+
+    def _get_sieve_raw_expr(self, state: GenState, sub_crown: OutCrown, element_expr: str) -> str:
+        # sieve takes the raw field value, the element expression contains the value already processed by the dumper
+        if isinstance(sub_crown, OutFieldCrown):
+            field = self._id_to_field[sub_crown.id]
+            if isinstance(field.accessor, (DescriptorAccessor, ItemAccessor)):
+                return self._gen_access_expr(state.namespace, field)
+            # getter of custom accessor has been registered by the extraction code
+            return f"{self._v_accessor_getter(field)}(data)"
+        return element_expr
 
     def _gen_dict_sieved_append(
         self,
@@ -590,8 +602,9 @@ class BuiltinModelDumperGen(ModelDumperGen):
         sieve: Sieve,
         key: str,
         element_expr: ElementExpr,
+        raw_expr: str,
     ):
-        condition = self._get_sieve_condition(state, sieve, key, element_expr.expr)
+        condition = self._get_sieve_condition(state, sieve, key, raw_expr)
         if element_expr.can_inline:
             state.builder += f"""
                 if {condition}:
